@@ -39,10 +39,14 @@ def rank_spec(ctx, q, tails, e2, r):
     return ctx.any_(alts)
 
 
-def h_skeleton(ctx, m, n, give_to, rel, with_cap, plain=False):
+def h_skeleton(ctx, m, n, give_to, rel, with_cap, plain=False, tie=None):
     """matrix_skeleton on A := U diag(s) V (SVD contract: s descending >= 0).
     plain: U, V identity blocks (three and more singular values at low cost: the
-    rank selection only reads the spectrum)."""
+    rank selection only reads the spectrum).  tie = j: the accuracy is not a free
+    symbol but exactly the (normalised) singular value number j with all later
+    ones zero, i.e. the tail energy equals e (a boundary the solver finds on the
+    free instances too, but there its counterexamples need a tie between
+    independently rounded floats; here both sides are the same float)."""
     if plain:
         k = min(m, n)
         U, V = eye(ctx, m)[:, :k].copy(), eye(ctx, n)[:k, :].copy()
@@ -50,9 +54,17 @@ def h_skeleton(ctx, m, n, give_to, rel, with_cap, plain=False):
         U, V, k = _orth_svd(ctx, m, n)
     s = spectrum(ctx, k, positive=rel)
     A = U @ diag(ctx, s) @ V
+    if tie is not None:
+        s = s.copy()
+        s[tie + 1:] = ctx.const(0)
+        ctx.assume(ctx.gt(s[tie], 0))
+        A = U @ diag(ctx, s) @ V
     expect(ctx, 'svd', A, (U, s, V))
-    e = ctx.real('e')
-    ctx.assume(ctx.gt(e, 0))
+    if tie is None:
+        e = ctx.real('e')
+        ctx.assume(ctx.gt(e, 0))
+    else:
+        e = s[tie] / s[0] if rel else s[tie]
     r = ctx.integer('r') if with_cap else None
     if with_cap:
         ctx.assume(ctx.ge(r, 1))
@@ -62,6 +74,12 @@ def h_skeleton(ctx, m, n, give_to, rel, with_cap, plain=False):
     ss = [x / s[0] for x in s] if rel else list(s)
     tails = [sum((x * x for x in ss[j:]), ctx.const(0)) for j in range(k + 1)]
     ctx.claim('rank_is_smallest_within_cap', rank_spec(ctx, q, tails, e * e, r))
+    if tie is not None:
+        if not is_sym(ctx):
+            # (the boundary is exact in floats as well provided LAPACK returns the diagonal unchanged)
+            ctx.assume(bool(np.array_equal(np.linalg.svd(np.asarray(A, dtype=float), compute_uv=False),
+                                           np.asarray(s, dtype=float))))
+        ctx.claim('rank_at_exact_tie', q == max(1, tie))
     if with_cap:
         ctx.claim('cap', ctx.any_([q == 1, ctx.le(q, r)]))
     best = U[:, :q] @ diag(ctx, s[:q]) @ V[:q, :]
@@ -97,6 +115,47 @@ def h_skeleton_antidiag(ctx, give_to):
     if q == 1:
         best[1, 0] = ctx.const(0)
     ctx.claim('product_is_truncated_svd', ctx.all_eq(F @ G, best))
+    ctx.claim('finite', finite(ctx, [F, G]))
+
+
+def h_skeleton_hermitian(ctx, give_to, anti):
+    """matrix_skeleton(hermitian=True) on a symmetric indefinite 2 x 2 matrix
+    (diag(a, -b), or [[0, a], [a, 0]] with eigenvalues +-a): the product is
+    still the best rank-q approximation of the matrix itself, for all three
+    ways of distributing the singular values."""
+    a = ctx.real('a')
+    ctx.assume(ctx.gt(a, 0))
+    A = zeros(ctx, (2, 2))
+    if anti:
+        A[0, 1] = a
+        A[1, 0] = a
+        sv = [a, a]
+    else:
+        b = ctx.real('b')
+        ctx.assume(ctx.gt(b, 0))
+        ctx.assume(ctx.gt(abs(a - b), (a + b) / 1000), 'no near-tie of the two singular values in the float replay')
+        A[0, 0] = a
+        A[1, 1] = -b
+        sv = [a, b]
+    e = ctx.real('e')
+    ctx.assume(ctx.gt(e, 0))
+    F, G = teneva.matrix_skeleton(A, e, hermitian=True, give_to=give_to)
+    q = F.shape[1]
+    ctx.claim('shapes', F.shape == (2, q) and G.shape == (q, 2) and 1 <= q <= 2)
+    if q == 2:
+        ctx.claim('product_is_truncated_svd', ctx.all_eq(F @ G, A))
+    elif not anti:
+        best = A.copy()
+        if bool(ctx.gt(a, b)):
+            best[1, 1] = ctx.const(0)
+        else:
+            best[0, 0] = ctx.const(0)
+        ctx.claim('product_is_truncated_svd', ctx.all_eq(F @ G, best))
+    else:
+        # equal singular values: any best rank-1 approximation has error exactly a
+        ctx.claim('product_is_truncated_svd', ctx.eq(sumsq(F @ G - A), a * a))
+    small = sv[1] if anti or bool(ctx.gt(sv[0], sv[1])) else sv[0]
+    ctx.claim('rank_is_smallest', ctx.any_([ctx.all_([q == 1, ctx.le(small, e)]), ctx.all_([q == 2, ctx.gt(small, e)])]))
     ctx.claim('finite', finite(ctx, [F, G]))
 
 
@@ -365,6 +424,14 @@ def instances(tier):
             for rel in (False, True):
                 out.append({'func': 'h_skeleton', 'params': {'m': m, 'n': n, 'give_to': give_to, 'rel': rel, 'with_cap': True,
                                                              'plain': True}})
+    # hermitian=True on symmetric indefinite matrices
+    for give_to in 'mlr':
+        for anti in (False, True):
+            out.append({'func': 'h_skeleton_hermitian', 'params': {'give_to': give_to, 'anti': anti}})
+    # tail energy exactly equal to the accuracy (<= is admissible)
+    for k, tie, rel, give_to in [(2, 1, False, 'm'), (3, 1, True, 'l'), (3, 2, False, 'r'), (3, 2, True, 'm')]:
+        out.append({'func': 'h_skeleton', 'params': {'m': k, 'n': k, 'give_to': give_to, 'rel': rel, 'with_cap': False,
+                                                     'plain': True, 'tie': tie}})
     for m, n in [(2, 2), (2, 3), (3, 2)]:
         for cap in (False, True):
             out.append({'func': 'h_matrix_svd', 'params': {'m': m, 'n': n, 'with_cap': cap}})
